@@ -134,7 +134,7 @@ InfoCodeOk(code, stored, p) ==
        \/ code = 2 /\ stored # 0 /\ stored # Info(fs, p)
 ValMatches(k, r, row) ==
   /\ row.val.k = r.val.k
-  /\ (r.val.k \in {"ExistingInput", "SuccessfulCommand"} /\ ~IsDirNode(k)) =>
+  /\ (r.val.k \in {"ExistingInput", "SuccessfulCommand"} /\ ~IsDirNode(k) /\ r.sig = SigOf(k)) =>       \* (a row of an older definition names other paths)
         /\ Len(row.val.i) = Len(r.val.i)
         /\ LET ps == PathsOfKey(k) IN
            \A j \in 1..Len(r.val.i) : IF r.val.i[j] = -1 \/ j > Len(ps) THEN TRUE ELSE InfoCodeOk(row.val.i[j], r.val.i[j], ps[j])
